@@ -256,6 +256,18 @@ func gen(c *hx.Ctx) {
 	}
 	p.flush()
 
+	// 3b. range protocol: whole blocks of 2^16 consecutive int32 patterns (fixed + 7-bit, write and read back), one CRC each.
+	// Boundary blocks always, the rest drawn from the seed (quick 20 blocks = 1.3M values, thorough 128 = 8.4M values; the
+	// thorough tier of ./check additionally sweeps thousands of blocks (or all 65536) in parallel shards — see checklib/c11.py).
+	blocks := []int{0x0000, 0x0001, 0x003f, 0x0040, 0x007f, 0x0080, 0x0fff, 0x1000, 0x7fff, 0x8000, 0xefff, 0xf000, 0xff7f, 0xff80, 0xfffe, 0xffff}
+	for len(blocks) < c.Budget(20, 128) {
+		blocks = append(blocks, c.Rng.Intn(65536))
+	}
+	for _, b := range blocks {
+		c.Emit("range32 %d", b)
+		c.Count("int32_block_of_65536")
+	}
+
 	// 4. int64
 	p = &packer{c: c, n: 16, class: "int64"}
 	for _, v := range boundaries(64) {
